@@ -137,8 +137,9 @@ type Input struct {
 
 // Func is the result of translating one function.
 type Func struct {
-	Name    string // "F" or "T.M"
+	Name    string // "F" or "T.M"; "import/path:F" for a function of another package
 	Coq     string // name of the generated definition
+	Pkg     *Pkg
 	Decl    *ast.FuncDecl
 	Obj     *types.Func
 	Params  []*types.Var // receiver first
@@ -165,14 +166,15 @@ func (f *Func) ResType() string {
 
 // Translator holds the functions translated so far (callees must come first).
 type Translator struct {
-	Pkg    *Pkg
+	Pkg    *Pkg // the package the unqualified names belong to
+	others map[string]*Pkg
 	Prefix string
 	Funcs  map[string]*Func // by key()
 	Order  []*Func
 }
 
 func New(p *Pkg, prefix string) *Translator {
-	return &Translator{Pkg: p, Prefix: prefix, Funcs: map[string]*Func{}}
+	return &Translator{Pkg: p, others: map[string]*Pkg{}, Prefix: prefix, Funcs: map[string]*Func{}}
 }
 
 func key(f *types.Func) string { return strings.Replace(f.FullName(), "*", "", -1) }
@@ -657,6 +659,15 @@ func (t *ft) call(x *ast.CallExpr) string {
 	if len(actual) != len(callee.Params) {
 		return t.fail("call of %s with %d arguments", callee.Name, len(actual))
 	}
+	for i, a := range actual { // an argument the callee reads nothing of is not evaluated: it must be harmless
+		reads := false
+		for _, in := range callee.Inputs {
+			reads = reads || in.Param == i
+		}
+		if !reads && !harmless(a) {
+			return t.fail("argument %d of %s is not a plain name", i, callee.Name)
+		}
+	}
 	var args []string
 	for _, in := range callee.Inputs {
 		a := actual[in.Param]
@@ -685,6 +696,19 @@ func (t *ft) call(x *ast.CallExpr) string {
 		term = "(" + term + ")"
 	}
 	return term
+}
+
+// a name or a selector chain of names: evaluating it has no effect
+func harmless(e ast.Expr) bool {
+	switch x := e.(type) {
+	case *ast.Ident:
+		return true
+	case *ast.ParenExpr:
+		return harmless(x.X)
+	case *ast.SelectorExpr:
+		return harmless(x.X)
+	}
+	return false
 }
 
 func wrapBinds(bs []bind, body string) string {
@@ -1257,18 +1281,29 @@ func paramDecl(names, tys []string) string {
 
 // ---------------------------------------------------------------- functions
 
-// Translate translates the function or method called name ("F" / "T.M") and records it.
+// Translate translates the function or method called name ("F" / "T.M", or
+// "import/path:F" / "import/path:T.M" for a callee in another package) and records it.
 func (T *Translator) Translate(name string) *Func {
-	fd := T.Pkg.Decls[name]
-	fn := &Func{Name: name, Coq: T.Prefix + strings.Replace(name, ".", "_", 1), Decl: fd}
+	pkg, decl, coq := T.Pkg, name, T.Prefix+strings.Replace(name, ".", "_", 1)
+	if i := strings.LastIndex(name, ":"); i >= 0 {
+		path := name[:i]
+		decl = name[i+1:]
+		if T.others[path] == nil {
+			T.others[path] = T.Pkg.LoadImport(path)
+		}
+		pkg = T.others[path]
+		coq = T.Prefix + pkg.Types.Name() + "_" + strings.Replace(decl, ".", "_", 1)
+	}
+	fd := pkg.Decls[decl]
+	fn := &Func{Name: name, Coq: coq, Pkg: pkg, Decl: fd}
 	T.Order = append(T.Order, fn)
 	if fd == nil || fd.Body == nil {
 		fn.Err = fmt.Errorf("not found in the source")
 		fn.Text = fmt.Sprintf("(* %s: not found in the source *)\n\n", name)
 		return fn
 	}
-	fn.Obj, _ = T.Pkg.Info.Defs[fd.Name].(*types.Func)
-	pos := T.Pkg.Fset.Position(fd.Pos())
+	fn.Obj, _ = pkg.Info.Defs[fd.Name].(*types.Func)
+	pos := pkg.Fset.Position(fd.Pos())
 	where := fmt.Sprintf("%s (%s:%d)", name, filepath.Base(pos.Filename), pos.Line)
 	if fn.Obj == nil {
 		fn.Err = fmt.Errorf("not type-checked")
@@ -1299,7 +1334,7 @@ func (T *Translator) Translate(name string) *Func {
 }
 
 func (T *Translator) run(fn *Func, pure bool) *ft {
-	t := &ft{T: T, info: T.Pkg.Info, fn: fn, pure: pure, names: map[*types.Var]string{}, taken: map[string]bool{"fuel": true, "st": true, "ret_v": true},
+	t := &ft{T: T, info: fn.Pkg.Info, fn: fn, pure: pure, names: map[*types.Var]string{}, taken: map[string]bool{"fuel": true, "st": true, "ret_v": true},
 		inputs: map[string]*Input{}, memo: map[ast.Stmt]*loopInfo{}, fuel: []bool{false}}
 	sig := fn.Obj.Type().(*types.Signature)
 	if sig.TypeParams() != nil || sig.RecvTypeParams() != nil {
